@@ -1,29 +1,27 @@
 CONSTANTS
-  NPts = 2
-  NFr = 1
+  KMax = 255
+  FromLoaded = FALSE
   PNames <- MC_PNames
   ANames <- MC_ANames
   PRates <- MC_PRates
   ARates <- MC_ARates
   MaxFrames = 1
-  MaxPts = 2
-  MaxCh = 2
+  MaxPts = 1
+  MaxCh = 0
   FrameKinds <- MC_FrameKinds
   ColKinds <- MC_ColKinds
   Tags <- MC_Tags
-  IdxSlack = 1
+  IdxSlack = 0
   UserParams <- MC_UserParams
   LockNames <- MC_LockNames
   CallerIds <- MC_CallerIds
   Files <- MC_Files
   WithEdits = FALSE
-  WithReload = FALSE
-  Lookups = TRUE
-  Phased = TRUE
-INIT Init
-NEXT Next
+  WithReload = TRUE
+  Lookups = FALSE
+  Phased = FALSE
+INIT AlignInit
+NEXT AlignNext
 VIEW View
-INVARIANT LookupConsistent
-INVARIANT NamesTrimmed
-INVARIANT MandInv
+INVARIANT IOInv
 CHECK_DEADLOCK FALSE
